@@ -578,6 +578,13 @@ func BVBin(op Op, a, b *Term) *Term {
 
 func BVCmp(op Op, a, b *Term) *Term {
 	sameBV(a, b)
+	// strict comparisons are kept as negated non-strict ones (one canonical literal per fact)
+	if op == OpSLt && !(a.IsConst() && b.IsConst()) {
+		return Not(BVCmp(OpSLe, b, a))
+	}
+	if op == OpULt && !(a.IsConst() && b.IsConst()) {
+		return Not(BVCmp(OpULe, b, a))
+	}
 	if a.IsConst() && b.IsConst() {
 		switch op {
 		case OpULt:
@@ -693,6 +700,13 @@ func SFromInt(a *Term) *Term {
 }
 
 func SToInt(a *Term) *Term {
+	if a.Op == OpSFromInt {
+		x := a.Args[0]
+		return Ite(ICmp(OpILe, IntC(0), x), x, IntC(-1))
+	}
+	if a.Op == OpIte {
+		return Ite(a.Args[0], SToInt(a.Args[1]), SToInt(a.Args[2]))
+	}
 	if a.IsConst() {
 		if a.S == "" {
 			return IntC(-1)
@@ -770,6 +784,13 @@ func ICmp(op Op, a, b *Term) *Term {
 		}
 		return BoolC(a.I < b.I)
 	}
+	if op == OpILt {
+		return Not(ICmp(OpILe, b, a))
+	}
+	// 0 <= bv2nat(x) always
+	if op == OpILe && a.IsConst() && a.I <= 0 && (b.Op == OpBV2Int || b.Op == OpSLen) {
+		return True
+	}
 	return mk(op, Bool, a, b)
 }
 
@@ -786,6 +807,9 @@ func BV2Int(a *Term) *Term {
 func Int2BV(a *Term, w int) *Term {
 	if a.IsConst() {
 		return BVC(w, uint64(a.I))
+	}
+	if a.Op == OpBV2Int && int(a.Args[0].Sort.W) == w {
+		return a.Args[0]
 	}
 	if a.Op == OpIte {
 		return Ite(a.Args[0], Int2BV(a.Args[1], w), Int2BV(a.Args[2], w))
